@@ -5,7 +5,8 @@
 (* every reachable state, so sessions of MaxSteps + 1 statements are covered without a history variable.  *)
 EXTENDS FindProgram, TLC, Json, IOUtils, SequencesExt
 CONSTANTS MaxSteps,     \* statements executed before the one the laws look at
-          VA,           \* versions (0 = absent) of name "a" in [binaries] / dirs / root directory / PATH
+          VBIN,         \* versions (0 = absent) of name "a" in the [binaries] sections
+          VA,           \* ... in dirs / root directory / PATH
           VSD,          \* ... in the subdirectory
           ProvA,        \* provider styles of "a"
           BProfiles,    \* what exists of the second name "b" (see BProfile)
@@ -14,6 +15,7 @@ CONSTANTS MaxSteps,     \* statements executed before the one the laws look at
           CrossFamily,  \* TRUE: cross builds (two machines, native/cross file), FALSE: native builds
           NameSeqIds,   \* the `names` of find_program calls: "a" | "b" | "ab" | "ba"
           MCReqs, MCCons,
+          MCSites, MCDirs,  \* sites and values of "dirs: given" of find_program calls
           SubV, MainV, ProjV
 VARIABLES env, st, n
 
@@ -31,8 +33,8 @@ BProfile(p) == CASE p = "nowhere" -> Nowhere
                  [] p = "prov" -> Pr(0, 0, 0, 0, 0, 0, "ovr")
                  [] p = "provpath1" -> Pr(0, 0, 0, 0, 0, 1, "ovr")
 AProfiles == IF CrossFamily
-             THEN { Pr(nat, crs, 0, 0, 0, path, prov) : nat \in VA, crs \in VA, path \in VA, prov \in ProvA }
-             ELSE { Pr(nat, 0, xd, root, sd, path, prov) : nat \in VA, xd \in VA, root \in VA, sd \in VSD, path \in VA, prov \in ProvA }
+             THEN { Pr(nat, crs, 0, 0, 0, path, prov) : nat \in VBIN, crs \in VBIN, path \in VA, prov \in ProvA }
+             ELSE { Pr(nat, 0, xd, root, sd, path, prov) : nat \in VBIN, xd \in VA, root \in VA, sd \in VSD, path \in VA, prov \in ProvA }
 ByName(pa, pb, f(_)) == [x \in AllNames |-> IF x = "a" THEN f(pa) ELSE IF x = "b" THEN f(pb) ELSE f(Nowhere)]
 MkEnv(wm, fff, pa, pb) ==
     [wm |-> wm, fff |-> fff, cross |-> CrossFamily,
@@ -49,7 +51,7 @@ NameSeqs == { NamesOf(k) : k \in NameSeqIds }
 Natives == IF CrossFamily THEN BOOLEAN ELSE {FALSE}
 Used == UNION { ElemsOf(ns) : ns \in NameSeqs }
 FindEvents == { FindEv(ns, rq, nat, cn, d, s, FALSE) :
-                  ns \in NameSeqs, rq \in MCReqs, nat \in Natives, cn \in MCCons, d \in BOOLEAN, s \in Sites }
+                  ns \in NameSeqs, rq \in MCReqs, nat \in Natives, cn \in MCCons, d \in MCDirs, s \in MCSites }
               \cup { FindEv(<<"a">>, rq, FALSE, "any", FALSE, "root", TRUE) : rq \in MCReqs }
 OverrideEvents == { OverrideEv(x, nat, k) : x \in Used, nat \in Natives, k \in {"prog", "file"} }
 SubEvents == { SubEv(x, rq, nat) : x \in Used, rq \in {"true", "false"}, nat \in Natives }
@@ -69,8 +71,150 @@ O(e, r) == Step(env, st, e, r)
 Rel(e) == Relevant(env, st, e)
 M(e) == Mach(env, e.native)
 SystemSrcs == {"nat", "crs", "dirs", "src_root", "src_sd", "path"}
+\* a law that fails names itself (the invariants below group laws that look at the same outcome, so that
+\* the outcome of a statement is computed once per state, statement and reading)
+Law(name, e, holds) == holds \/ (PrintT(<<"LAW VIOLATED", name, e>>) /\ FALSE)
 
-\* ---- laws ---------------------------------------------------------------------------------------
+\* ---- laws about the outcome o = Step(env, st, e, r) of a find_program call e ----------------------------
+FirstSys(e) == LET present == SelectSeq(SysStages, LAMBDA s : SysV(e, s, env, M(e), e.names[1]) # 0)
+               IN IF present = <<>> THEN "" ELSE Head(present)
+
+\* the walk over the probes equals the declarative decision list for one name, under every reading
+OperationalEqualsDeclarative(e, r, o) == Len(e.names) = 1 => o = DeclFind(env, st, e, r)
+
+\* an override, once accepted, wins over every other source: nothing is configured, the system is not
+\* looked at, the answer is the overriding program or - when its version does not fit - nothing
+OverrideWins(e, r, o) ==
+    LET ov == st.ovr[M(e)][e.names[1]]
+    IN e.req # "disabled" /\ ov # None =>
+          /\ (Sat(e.con, ov.v) => o.res = Res("found", e.names[1], ov.kind, ov.v) /\ o.st.sub = st.sub /\ o.st.ovr = st.ovr)
+          /\ (~Sat(e.con, ov.v) /\ Len(e.names) = 1 => o.res = Miss(e) /\ o.st = st)
+
+\* the order among the sources of the system is [binaries], dirs:, source directory of the caller, PATH
+SystemOrder(e, r, o) ==
+    LET x == e.names[1]
+        f == FirstSys(e)
+    IN Len(e.names) = 1 /\ e.req # "disabled" /\ e.con = "any" /\ st.ovr[M(e)][x] = None /\ ~Forced(env, x) /\ f # "" =>
+          o.res = Res("found", x, SrcLabel(e, f, env, M(e)), SysV(e, f, env, M(e), x)) /\ o.st.sub = st.sub
+\* a script next to another meson.build is not seen: the source tree is searched "relative to the current subdir"
+SourceDirIsTheCallers(e, r, o) ==
+    o.res.src \in {"src_root", "src_sd"} => o.res.src = (IF e.site = "root" THEN "src_root" ELSE "src_sd")
+\* dirs: only counts when given; [binaries] of the machine file that describes the machine of the lookup
+DirsOnlyWhenGiven(e, r, o) == o.res.src = "dirs" => e.dirs
+BinariesOfTheRightFile(e, r, o) == o.res.src \in {"nat", "crs"} => o.res.src = BinFile(env, M(e))
+
+\* forced fallback: the system is never used for a name that has a provider
+ForcedNeverUsesSystem(e, r, o) ==
+    (\A i \in 1..Len(e.names) : Forced(env, e.names[i])) => ~(o.res.src \in SystemSrcs)
+\* wrap_mode=nofallback (not overridden by force_fallback_for): no lookup configures a subproject
+NofallbackNeverConfigures(e, r, o) == env.wm = "nofallback" /\ env.fff = {} => o.st.sub = st.sub
+\* a subproject is configured by a lookup of one name only when the answer does not come from the system
+FallbackOnlyWhenNeeded(e, r, o) ==
+    Len(e.names) = 1 /\ o.st.sub # st.sub =>
+        /\ ~(o.res.src \in SystemSrcs)
+        /\ st.ovr[M(e)][e.names[1]] = None
+        /\ (Forced(env, e.names[1]) \/ MayFallBack(env, e.names[1]))
+\* ... and is used when the system has nothing, a provider exists and fallbacks are not switched off
+FallbackUsedWhenSystemFails(e, r, o) ==
+    LET x == e.names[1]
+    IN /\ Len(e.names) = 1 /\ Required(e.req) /\ st.ovr[M(e)][x] = None /\ FirstSys(e) = "" /\ MayFallBack(env, x)
+       /\ st.sub[M(e)][x] = "unconfigured"
+       => o.st.sub[M(e)][x] # "unconfigured"
+
+\* required: true never yields a not-found object, required: false / auto / disabled never raises
+RequiredContract(e, r, o) ==
+    LET k == o.res.kind
+    IN /\ (Required(e.req) => k \in {"found", "error"})
+       /\ (~Required(e.req) => k \in {"found", "notfound", "disabler"})
+       /\ (k = "disabler" => e.dis) /\ (k = "notfound" => ~e.dis)
+\* a disabled feature: no lookup at all
+DisabledSkipsLookup(e, r, o) == e.req = "disabled" => o.st = st /\ o.res.kind # "found"
+
+\* a found program satisfies the requested version ...
+VersionRespected(e, r, o) == o.res.kind = "found" => Sat(e.con, o.res.v)
+\* ... and when every candidate of the name has the wrong version the lookup is a miss
+VersionMismatchIsNotFound(e, r, o) ==
+    LET x == e.names[1]
+        m == M(e)
+    IN /\ Len(e.names) = 1 /\ e.req # "disabled"
+       /\ (st.ovr[m][x] # None => ~Sat(e.con, st.ovr[m][x].v))
+       /\ (\A i \in 1..Len(SysStages) : LET v == SysV(e, SysStages[i], env, m, x) IN v # 0 => ~Sat(e.con, v))
+       /\ (env.prov[x] = "ovr" => ~Sat(e.con, env.subv[x]))
+       => o.res = Miss(e)
+
+\* per machine: a lookup for one machine neither reads nor writes what is remembered for the other one;
+\* without a cross file there is one machine and native: makes no difference
+OnlyMachine(s, m) == [ovr |-> [k \in Machines |-> IF k = m THEN s.ovr[k] ELSE InitState.ovr[k]],
+                      used |-> [k \in Machines |-> IF k = m THEN s.used[k] ELSE {}],
+                      alt |-> [k \in Machines |-> IF k = m THEN s.alt[k] ELSE {}],
+                      sub |-> [k \in Machines |-> IF k = m THEN s.sub[k] ELSE InitState.sub[k]]]
+MachinesIsolated(e, r, o) ==
+    LET m == M(e)
+        p == Step(env, OnlyMachine(st, m), e, r)
+    IN /\ o.res = p.res /\ OnlyMachine(o.st, m) = p.st
+       /\ \A k \in Machines \ {m} : o.st.ovr[k] = st.ovr[k] /\ o.st.used[k] = st.used[k] /\ o.st.sub[k] = st.sub[k]
+       /\ (~env.cross => Step(env, st, [e EXCEPT !.native = TRUE], r) = o)
+
+\* alternative names: when only one of the names exists anywhere, the answer is that of looking for it alone
+Live(x, e) == \/ st.ovr[M(e)][x] # None \/ env.prov[x] # "none"
+              \/ \E i \in 1..Len(SysStages) : SysV(e, SysStages[i], env, M(e), x) # 0
+OneLiveNameDecides(e, r, o) ==
+    LET live == { i \in 1..Len(e.names) : Live(e.names[i], e) }
+    IN Len(e.names) > 1 /\ Cardinality(live) = 1 =>
+          LET p == Step(env, st, [e EXCEPT !.names = <<e.names[CHOOSE i \in live : TRUE]>>], r)
+          IN o.res = p.res /\ o.st.sub = p.st.sub /\ o.st.used = p.st.used
+\* ... and the first name wins when it has a program in the best source any of the names has
+FirstNameWinsTies(e, r, o) ==
+    LET x == e.names[1]
+        nothingAbove == \A i \in 1..Len(e.names) : st.ovr[M(e)][e.names[i]] = None /\ ~Forced(env, e.names[i])
+    IN /\ Len(e.names) > 1 /\ e.req # "disabled" /\ e.con = "any"
+       /\ (st.ovr[M(e)][x] # None \/ (nothingAbove /\ BinV(env, M(e), x) # 0))
+       => o.res = Step(env, st, [e EXCEPT !.names = <<x>>], r).res
+
+FindLaws ==
+    \A e \in FindEvents : \A r \in Rel(e) :
+        LET o == O(e, r)
+        IN /\ Law("OperationalEqualsDeclarative", e, OperationalEqualsDeclarative(e, r, o))
+           /\ Law("OverrideWins", e, OverrideWins(e, r, o))
+           /\ Law("SystemOrder", e, SystemOrder(e, r, o))
+           /\ Law("SourceDirIsTheCallers", e, SourceDirIsTheCallers(e, r, o))
+           /\ Law("DirsOnlyWhenGiven", e, DirsOnlyWhenGiven(e, r, o))
+           /\ Law("BinariesOfTheRightFile", e, BinariesOfTheRightFile(e, r, o))
+           /\ Law("ForcedNeverUsesSystem", e, ForcedNeverUsesSystem(e, r, o))
+           /\ Law("NofallbackNeverConfigures", e, NofallbackNeverConfigures(e, r, o))
+           /\ Law("FallbackOnlyWhenNeeded", e, FallbackOnlyWhenNeeded(e, r, o))
+           /\ Law("FallbackUsedWhenSystemFails", e, FallbackUsedWhenSystemFails(e, r, o))
+           /\ Law("RequiredContract", e, RequiredContract(e, r, o))
+           /\ Law("DisabledSkipsLookup", e, DisabledSkipsLookup(e, r, o))
+           /\ Law("VersionRespected", e, VersionRespected(e, r, o))
+           /\ Law("VersionMismatchIsNotFound", e, VersionMismatchIsNotFound(e, r, o))
+           /\ Law("OneLiveNameDecides", e, OneLiveNameDecides(e, r, o))
+           /\ Law("FirstNameWinsTies", e, FirstNameWinsTies(e, r, o))
+MachineLaws ==
+    \A e \in Events : \A r \in Rel(e) : Law("MachinesIsolated", e, MachinesIsolated(e, r, O(e, r)))
+\* (the last clause of MachinesIsolated alone, for the native families)
+NativeLaws ==
+    ~env.cross => \A e \in Events : \A r \in Rel(e) :
+        Law("NativeIrrelevantWithoutCross", e, Step(env, st, [e EXCEPT !.native = TRUE], r) = O(e, r))
+
+\* ---- laws about overriding ----------------------------------------------------------------------------
+\* "override must happen before use" [F66], no second override [F65]; an accepted override is what every
+\* later lookup of the name on that machine returns
+OverrideBeforeUse(e, r, o) ==
+    LET x == e.names[1]
+        m == M(e)
+    IN /\ (x \in st.used[m] \/ st.ovr[m][x] # None => o.res = ERR)
+       /\ (~(x \in st.used[m]) /\ ~(x \in st.alt[m]) /\ st.ovr[m][x] = None => o.res.kind = "ok")
+       /\ (o.res.kind = "ok" =>
+              /\ o.st.ovr[m][x].kind = "main"
+              /\ \A c \in SingleFinds : c.names[1] = x /\ Mach(env, c.native) = m /\ c.con = "any" /\ c.req # "disabled"
+                    => \A r2 \in Relevant(env, o.st, c) :
+                          Step(env, o.st, c, r2).res = Res("found", x, "main", o.st.ovr[m][x].v))
+OverrideLaws == \A e \in OverrideEvents : \A r \in Rel(e) : Law("OverrideBeforeUse", e, OverrideBeforeUse(e, r, O(e, r)))
+\* a name that has been found keeps its override status for the rest of the session (action property)
+UsedNamesAreFrozen ==
+    [][\A m \in Machines : \A x \in st.used[m] : st'.ovr[m][x] = st.ovr[m][x] /\ x \in st'.used[m]]_vars
+
 TypeOK ==
     /\ \A m \in Machines, x \in AllNames :
           /\ st.ovr[m][x].kind \in {"none", "main", "sub"}
@@ -79,90 +223,12 @@ TypeOK ==
     /\ \A m \in Machines : st.used[m] \subseteq AllNames /\ st.alt[m] \subseteq AllNames
     /\ (~env.cross => st.used["build"] = {} /\ st.alt["build"] = {}
                       /\ \A x \in AllNames : st.ovr["build"][x] = None /\ st.sub["build"][x] = "unconfigured")
-    /\ \A e \in Events : \A r \in Rel(e) :
-          O(e, r).res.kind \in (CASE e.op = "find" -> {"found", "notfound", "disabler", "error"}
-                                  [] e.op = "override" -> {"ok", "error"}
-                                  [] e.op = "sub" -> {"ok", "nf", "error"})
+    /\ \A e \in OverrideEvents \cup SubEvents : \A r \in Rel(e) :
+          O(e, r).res.kind \in (IF e.op = "override" THEN {"ok", "error"} ELSE {"ok", "nf", "error"})
 
+\* ---- the two expensive laws (checked on a smaller family, configuration FindProgram_MCdeep.cfg) ----------
 \* the reduced set of readings gives the same outcomes as all 32
 RelevantReadingsSuffice == \A e \in Events : AllOutcomes(env, st, e) = Outcomes(env, st, e)
-
-\* the walk over the probes equals the declarative decision list for one name, under every reading
-OperationalEqualsDeclarative ==
-    \A e \in SingleFinds : \A r \in Rel(e) : DoFind(env, st, e, r) = DeclFind(env, st, e, r)
-
-\* an override, once accepted, wins over every other source: nothing is configured, the system is not
-\* looked at, the answer is the overriding program or - when its version does not fit - nothing
-OverrideWins ==
-    \A e \in FindEvents : e.req # "disabled" /\ st.ovr[M(e)][e.names[1]] # None =>
-        \A r \in Rel(e) :
-            LET o == O(e, r)
-                ov == st.ovr[M(e)][e.names[1]]
-            IN /\ (Sat(e.con, ov.v) => o.res = Res("found", e.names[1], ov.kind, ov.v)
-                                       /\ o.st.sub = st.sub /\ o.st.ovr = st.ovr)
-               /\ (~Sat(e.con, ov.v) /\ Len(e.names) = 1 => o.res = Miss(e) /\ o.st = st)
-
-\* the order among the sources of the system is [binaries], dirs:, source directory of the caller, PATH
-FirstSys(e) == LET present == SelectSeq(SysStages, LAMBDA s : SysV(e, s, env, M(e), e.names[1]) # 0)
-               IN IF present = <<>> THEN "" ELSE Head(present)
-SystemOrder ==
-    \A e \in SingleFinds :
-        LET x == e.names[1]
-            f == FirstSys(e)
-        IN e.req # "disabled" /\ e.con = "any" /\ st.ovr[M(e)][x] = None /\ ~Forced(env, x) /\ f # "" =>
-              \A r \in Rel(e) : /\ O(e, r).res = Res("found", x, SrcLabel(e, f, env, M(e)), SysV(e, f, env, M(e), x))
-                                /\ O(e, r).st.sub = st.sub
-\* a script next to another meson.build is not seen: the source tree is searched "relative to the current subdir"
-SourceDirIsTheCallers ==
-    \A e \in FindEvents : \A r \in Rel(e) :
-        O(e, r).res.src \in {"src_root", "src_sd"} => O(e, r).res.src = (IF e.site = "root" THEN "src_root" ELSE "src_sd")
-\* dirs: only counts when given
-DirsOnlyWhenGiven == \A e \in FindEvents : \A r \in Rel(e) : O(e, r).res.src = "dirs" => e.dirs
-
-\* forced fallback: the system is never used for a name that has a provider
-ForcedNeverUsesSystem ==
-    \A e \in FindEvents : (\A i \in 1..Len(e.names) : Forced(env, e.names[i])) =>
-        \A r \in Rel(e) : ~(O(e, r).res.src \in SystemSrcs)
-\* wrap_mode=nofallback (not overridden by force_fallback_for): no lookup configures a subproject
-NofallbackNeverConfigures ==
-    env.wm = "nofallback" /\ env.fff = {} => \A e \in FindEvents : \A r \in Rel(e) : O(e, r).st.sub = st.sub
-\* a subproject is configured by a lookup of one name only when the answer does not come from the system
-FallbackOnlyWhenNeeded ==
-    \A e \in SingleFinds : \A r \in Rel(e) :
-        O(e, r).st.sub # st.sub => /\ ~(O(e, r).res.src \in SystemSrcs)
-                                    /\ st.ovr[M(e)][e.names[1]] = None
-                                    /\ (Forced(env, e.names[1]) \/ MayFallBack(env, e.names[1]))
-\* ... and is used when the system has nothing, a provider exists and fallbacks are not switched off
-FallbackUsedWhenSystemFails ==
-    \A e \in SingleFinds :
-        LET x == e.names[1]
-        IN /\ Required(e.req) /\ st.ovr[M(e)][x] = None /\ FirstSys(e) = "" /\ MayFallBack(env, x)
-           /\ st.sub[M(e)][x] = "unconfigured"
-           => \A r \in Rel(e) : O(e, r).st.sub[M(e)][x] # "unconfigured"
-
-\* required: true never yields a not-found object, required: false / auto / disabled never raises
-RequiredContract ==
-    \A e \in FindEvents : \A r \in Rel(e) :
-        LET k == O(e, r).res.kind
-        IN /\ (Required(e.req) => k \in {"found", "error"})
-           /\ (~Required(e.req) => k \in {"found", "notfound", "disabler"})
-           /\ (k = "disabler" => e.dis) /\ (k = "notfound" => ~e.dis)
-\* a disabled feature: no lookup at all
-DisabledSkipsLookup ==
-    \A e \in FindEvents : e.req = "disabled" => \A r \in Rel(e) : O(e, r).st = st /\ O(e, r).res.kind # "found"
-
-\* a found program satisfies the requested version ...
-VersionRespected == \A e \in FindEvents : \A r \in Rel(e) : O(e, r).res.kind = "found" => Sat(e.con, O(e, r).res.v)
-\* ... and when every candidate of the name has the wrong version the lookup is a miss
-VersionMismatchIsNotFound ==
-    \A e \in SingleFinds :
-        LET x == e.names[1]
-            m == M(e)
-        IN /\ (st.ovr[m][x] # None => ~Sat(e.con, st.ovr[m][x].v))
-           /\ (\A i \in 1..Len(SysStages) : LET v == SysV(e, SysStages[i], env, m, x) IN v # 0 => ~Sat(e.con, v))
-           /\ (env.prov[x] = "ovr" => ~Sat(e.con, env.subv[x]))
-           => \A r \in Rel(e) : O(e, r).res = Miss(e) \/ e.req = "disabled"
-
 \* cache stability: a name resolved once resolves to the same program for the rest of the configuration
 \* (one-step inductive form: repeat at once, and repeat after any other statement under any reading)
 CacheStable ==
@@ -173,60 +239,6 @@ CacheStable ==
              /\ \A f \in Events : \A r2 \in Relevant(env, o.st, f) :
                    LET p == Step(env, o.st, f, r2)
                    IN p.res.kind # "error" => \A r3 \in Relevant(env, p.st, e) : Step(env, p.st, e, r3).res = o.res
-
-\* "override must happen before use" [F66], no second override [F65]; an accepted override is what every
-\* later lookup of the name on that machine returns
-OverrideBeforeUse ==
-    \A e \in OverrideEvents : \A r \in Rel(e) :
-        LET x == e.names[1]
-            m == M(e)
-            o == O(e, r)
-        IN /\ (x \in st.used[m] \/ st.ovr[m][x] # None => o.res = ERR)
-           /\ (~(x \in st.used[m]) /\ ~(x \in st.alt[m]) /\ st.ovr[m][x] = None => o.res.kind = "ok")
-           /\ (o.res.kind = "ok" =>
-                  /\ o.st.ovr[m][x].kind = "main"
-                  /\ \A c \in SingleFinds : c.names[1] = x /\ Mach(env, c.native) = m /\ c.con = "any" /\ c.req # "disabled"
-                        => \A r2 \in Relevant(env, o.st, c) :
-                              Step(env, o.st, c, r2).res = Res("found", x, "main", o.st.ovr[m][x].v))
-\* a name that has been found keeps its override status for the rest of the session (action property)
-UsedNamesAreFrozen ==
-    [][\A m \in Machines : \A x \in st.used[m] : st'.ovr[m][x] = st.ovr[m][x] /\ x \in st'.used[m]]_vars
-
-\* per machine: a lookup for one machine neither reads nor writes what is remembered for the other one;
-\* without a cross file there is one machine and native: makes no difference
-OnlyMachine(s, m) == [ovr |-> [k \in Machines |-> IF k = m THEN s.ovr[k] ELSE InitState.ovr[k]],
-                      used |-> [k \in Machines |-> IF k = m THEN s.used[k] ELSE {}],
-                      alt |-> [k \in Machines |-> IF k = m THEN s.alt[k] ELSE {}],
-                      sub |-> [k \in Machines |-> IF k = m THEN s.sub[k] ELSE InitState.sub[k]]]
-MachinesIsolated ==
-    \A e \in Events : \A r \in Rel(e) :
-        LET m == M(e)
-            o == O(e, r)
-            p == Step(env, OnlyMachine(st, m), e, r)
-        IN /\ o.res = p.res /\ OnlyMachine(o.st, m) = p.st
-           /\ \A k \in Machines \ {m} : o.st.ovr[k] = st.ovr[k] /\ o.st.used[k] = st.used[k] /\ o.st.sub[k] = st.sub[k]
-           /\ (~env.cross => Step(env, st, [e EXCEPT !.native = TRUE], r) = o)
-
-\* alternative names: when only one of the names exists anywhere, the answer is that of looking for it alone
-Live(x, e) == \/ st.ovr[M(e)][x] # None \/ env.prov[x] # "none"
-              \/ \E i \in 1..Len(SysStages) : SysV(e, SysStages[i], env, M(e), x) # 0
-OneLiveNameDecides ==
-    \A e \in MultiFinds :
-        LET live == { i \in 1..Len(e.names) : Live(e.names[i], e) }
-        IN Cardinality(live) = 1 =>
-             LET x == e.names[CHOOSE i \in live : TRUE]
-                 single == [e EXCEPT !.names = <<x>>]
-             IN \A r \in Rel(e) : /\ O(e, r).res = Step(env, st, single, r).res
-                                  /\ O(e, r).st.sub = Step(env, st, single, r).st.sub
-                                  /\ O(e, r).st.used = Step(env, st, single, r).st.used
-\* ... and the first name wins when it has an acceptable program in the best source any name has
-FirstNameWinsTies ==
-    \A e \in MultiFinds : e.req # "disabled" /\ e.con = "any" =>
-        LET x == e.names[1]
-            single == [e EXCEPT !.names = <<x>>]
-            nothingAbove == \A i \in 1..Len(e.names) : st.ovr[M(e)][e.names[i]] = None /\ ~Forced(env, e.names[i])
-        IN (st.ovr[M(e)][x] # None \/ (nothingAbove /\ BinV(env, M(e), x) # 0))
-           => \A r \in Rel(e) : O(e, r).res = Step(env, st, single, r).res
 
 \* ---- the model's input space, for the implementation harness -------------------------------------
 EnvJson(e) == [e EXCEPT !.fff = SetToSeq(e.fff)]
